@@ -174,28 +174,52 @@ def rule_branch_loop(ctx):
                     if rhs is not None:
                         out |= reads(rhs, depth + 1)
         return out
-    for c in q.calls_named(ctx, bar, f'{BR}.append'):
-        for const, conds in cond_sites(c):
-            n_m += 1
-            s = q.stmt(c)
-            pos = [t for t, b in conds if b]
-            allr = set()
-            for t in pos:
-                allr |= reads(t)
-            guarded = 'tsc_format' in allr
-            stale = [x for t, _b in conds for x in stale_names(t)]
-            perlevel = {'index', HS} <= allr or {'index'} <= allr and any(HS in reads(t) for t in pos)
-            # ... and by POSITION: the duplicated node is the last of an odd-width level, whatever the hash values are
-            expanded = ' '.join(norm(expand_locals_(bar, t)) for t in pos)
-            positional = f'len({HS})' in expanded and not any(
-                isinstance(c_, ast.Compare) and all(isinstance(x_, ast.Subscript) and norm(x_.value) == HS for x_ in [c_.left] + c_.comparators)
-                for t in pos for c_ in ast.walk(expand_locals_(bar, t)))
-            perlevel = perlevel and positional
-            ctx.check(guarded and not stale and perlevel, 'C12.MARKER', ctx.key(bar, s, norm(const)),
-                      'the duplicate marker is appended only when tsc_format holds and the node is the duplicated one of this level',
-                      ('a constant marker can enter a classic (non-TSC) branch' if not guarded else
+    # decided per path through one level iteration, tests expressed in the values at the start of the iteration (a flag
+    # computed first, nested or merged ifs, a conditional expression as the argument: all the same)
+    from .. import paths as P
+    verdicts = {}
+    for pth in P.paths(loop.body):
+        for st_, env_ in pth.events:
+            if not (isinstance(st_, ast.Expr) and isinstance(st_.value, ast.Call) and q.callee_name(ctx, bar, st_.value) == f'{BR}.append' and st_.value.args):
+                continue
+            taken = [(t, pol) for t, pol, _n in pth.conds if isinstance(t, ast.expr)]
+
+            def consts(e, conds):
+                if isinstance(e, ast.Constant):
+                    yield e, conds
+                elif isinstance(e, ast.IfExp):
+                    t_ = P.subst(e.test, env_)
+                    dec = next((pol for t2, pol in taken if norm(t2) == norm(t_)), None)
+                    if dec is not False:
+                        yield from consts(e.body, conds + [(t_, True)])
+                    if dec is not True:
+                        yield from consts(e.orelse, conds + [(t_, False)])
+            for const, conds in consts(st_.value.args[0], taken):
+                pos = [t for t, b_ in conds if b_]
+                allr = set()
+                for t in pos:
+                    allr |= reads(t)
+                guarded = 'tsc_format' in allr
+                stale = [x for t, _b in conds for x in stale_names(t)]
+                perlevel = {'index', HS} <= allr
+                # ... and by POSITION: the duplicated node is the last of an odd-width level, whatever the hash values are
+                expanded = ' '.join(norm(expand_locals_(bar, t)) for t in pos)
+                positional = f'len({HS})' in expanded and not any(
+                    isinstance(c_, ast.Compare) and all(isinstance(x_, ast.Subscript) and norm(x_.value) == HS for x_ in [c_.left] + c_.comparators)
+                    for t in pos for c_ in ast.walk(expand_locals_(bar, t)))
+                perlevel = perlevel and positional
+                why = ('a constant marker can enter a classic (non-TSC) branch' if not guarded else
                        'the marker decision uses a value fixed before the level loop: ' + '; '.join(stale) if stale else
-                       'the marker decision is not a test of this level\'s index against its width (a comparison of hash values marks a genuine sibling that happens to be equal)'), loc=ctx.loc(bar, s))
+                       'the marker decision is not a test of this level\'s index against its width (a comparison of hash values marks a genuine sibling that happens to be equal)')
+                k_ = (id(st_), norm(const))
+                prev = verdicts.get(k_)
+                good = guarded and not stale and perlevel
+                verdicts[k_] = (st_, const, (prev[2] if prev else True) and good, why if not good else (prev[3] if prev else why))
+    for st_, const, good, why in verdicts.values():
+        n_m += 1
+        ctx.check(good, 'C12.MARKER', ctx.key(bar, st_, norm(const)),
+                  'the duplicate marker is appended only when tsc_format holds and the node is the duplicated one of this level',
+                  why, loc=ctx.loc(bar, st_))
     ctx.floor('C12.MARKER', 1, n_m)
     return 3 + n_t + n_m
 
